@@ -76,7 +76,7 @@ META = {
                 tech="fault injection by exhaustive enumeration of truncation points / byte substitutions / line faults over files produced by generated histories (rapid), with a restart oracle"),
     "C11": dict(level="exploration",
                 text="model-based testing of the DHCP server against a wire-level ledger that only knows what the replies said: every message sequence to depth 4/5 over a 12-symbol alphabet for two clients on a 14-address pool (exhaustive), rapid histories of 5..80 messages (all request kinds, 11 requested-address classes, 4 client identities two of which share a chaddr, spoofed client-ids, capture toggles, +1min/+5h ticks, foreign traffic) on three prefix configurations and three modes, and a pool-exhaustion sub-check",
-                note="a client that sends DISCOVER is in INIT state and no longer holds its address (DESIGN.md C11); RELEASE is treated as freeing although the server keeps the binding - both choices make the oracle accept more; lease expiry is driven through MinuteTicker(now+5h), other time thresholds of the handler are not virtualised",
+                note="a client that sends DISCOVER is in INIT state and no longer holds its address (DESIGN.md C11); RELEASE is treated as freeing although the server keeps the binding - both choices make the oracle accept more; lease and offer expiry are driven through MinuteTicker look-aheads and through the hook VerifAgeLeases (the ledger keeps a virtual clock); nextAttack is not virtualised",
                 tech="model-based stateful property testing (rapid op lists + interpreter + ledger oracle) + bounded-exhaustive sequence enumeration"),
     "C12": dict(level="exploration",
                 text="every OFFER/ACK/NAK along the C11 histories (all three modes, three home/netfilter prefix pairs, exhaustive depth 4/5 over a 12-symbol alphabet with capture toggles and ticks) is decoded by the reference decoder and checked against the transaction: op/xid/chaddr echo, yiaddr inside the subnet selected by the capture state at that moment, mask before router, router, DNS, server id, lease time, ACK only of the offer of this transaction or the client's lease, never for must-not-ACK requests; sub-check 'reconfigured': a second handler with another DNS server / a longer netfilter mask restarted on the first run's lease file must answer with the configuration it was given",
@@ -90,6 +90,31 @@ META = {
                 text="generated-input search against an independent RFC 1071 implementation: exhaustive for lengths 0..3, every single-word perturbation of carriers of every length, biased random strings, metamorphic split/insert relations, and IPv4 headers completed by the library verified by the reference",
                 note="trusts ref.Checksum (15 lines, stdlib only); inputs up to an Ethernet frame (1522 bytes)",
                 tech="property-based testing (rapid) + bounded-exhaustive enumeration against a reference implementation"),
+}
+
+
+# sub-checks and generator features added after the first build (DESIGN.md "Status" and section 25 say where each came from)
+LATER = {
+    "C01": "pending pings with a stalled transmit path; NDP search-list labels laid against the end of the option; group-addressed short vendor frames",
+    "C02": "every EtherType value (65536) times five payload shapes incl. double tagging; IPv4-mapped / site-local / unique-local IPv6 addresses",
+    "C03": "kept IPv4 views; 60..253 DHCP options; Ether.AppendPayload with spare-capacity copies and padding; mixed-case DNS names; NDP messages kept across later marshals",
+    "C04": "full unread notification channel; many-stations (17..250 hosts through both purges); LastSeen must be refreshed by every frame; MAC twins (one-byte differences at every position, swapped bytes, a VRRP MAC)",
+    "C05": "full unread notification channel; MAC twins and special MACs",
+    "C06": "names with a trailing dot / case twins; DHCP frames from an off-LAN source; LastSeen refresh",
+    "C07": "destination of DHCP replies; RFC 2131 fields of forged DECLINE / RELEASE (the histories call StartHunt on capture); exact NBNS names",
+    "C08": "long client identifiers; RDLENGTH corruption; RA.Options must not invent prefixes; the environment advertises as a router (RADVS) and gets RAs claiming its own address; aged deliveries (mDNS cache expired through a hook)",
+    "C09": "DHCP dialogues (incl. a foreign server's OFFER) with a lease file; full-channel drill; a crowd of 70..150 tracked stations; lingering rounds (loops go through timer cycles)",
+    "C10": "structured router advertisements from two routers; shared client identifiers; overstated UDP lengths",
+    "C11": "five networks (/28, /24, /25, /23, and the default configuration whose netfilter subnet is the whole LAN); identity k6; request class twin; session purges; recycling sub-check; vendor class and requested lease time options; a virtual clock in the ledger with age steps (hook VerifAgeLeases)",
+    "C12": "the additions of C11; reconfigured prefix lengths",
+    "C13": "forged packets must keep coming while hunted (first within 2 s, then every 9 s at most); confirm steps; starts under another address; a bystander claiming the router's address",
+    "C14": "RDNSS with 16+ servers; twin advertisements; IPv4 link-local and site-local targets",
+    "C15": "Checksum must not write its input; send functions at three log levels, to group / broadcast destinations, router advertisements of 1..16 prefixes",
+    "C16": "receive ring of 1..3 buffers; echo messages after and during pings of the process",
+    "C17": "second responses about the same and about another name; an earlier mDNS message from the same station; IPv4-mapped AAAA; labels that are words of the naming schemes",
+    "C18": "decline steps; default and /23 configurations; the probing identity shares the station's MAC and asks before the renewals; many-leases (110..240 clients)",
+    "C19": "six pings pending at once across the identifier wrap-around; replies parsed from inside the connection's WriteTo; reply header variants; other ICMP types",
+    "C20": "every appender (Stringer, Bytes, Sprintf, Module, LF too); durations beyond 2^32 s; next line after an over-long array; no truncation while the line fits; wide IPv4 arrays at every alignment",
 }
 
 REASON_PENDING = "check under construction in this session (planned, see DESIGN.md); not a statement that the technique cannot apply"
@@ -140,7 +165,7 @@ def main():
                 "evidence_file": "/verif/evidence/%s.json" % i,
                 "replay_cmd_template": "./check %s --replay {path}" % i,
                 "engine": "harness",
-                "level_claimed": {"category": c["level"], "text": c["text"], "design_ref": "DESIGN.md section " + i},
+                "level_claimed": {"category": c["level"], "text": c["text"] + ("; added later: " + LATER[i] if i in LATER else ""), "design_ref": "DESIGN.md section " + i + ", Status and section 25"},
                 "level_note": c["note"],
                 "technique": c["tech"],
             })
